@@ -108,6 +108,9 @@ def gen_op(rng, op, sizes, kinds, st):
             return "O %d" % rng.choice([1, 7, 8, 13, 100, 4095, 4097, rng.range(1, 20000)])
         return "o %d" % rng.loguniform(1, 40)
     if op == "v":
+        # (level 0 = never is not generated: it is a one-way latch after which the allocator keeps no
+        # per-quantum tags - stoCode answers 0, and the unchanged tree's own audit asserts; the
+        # property's request alphabet is allocate / free / resize / recode / collect)
         return "v %d" % rng.range(1, 2)
     if op == "p":
         st["p"] = st.get("p", 0) + 1
